@@ -187,6 +187,8 @@ class Body:
     def reach_from(self, start, avoid=frozenset(), include_start=False, unwind=False):
         """set of positions reachable from `start` position by >=1 step (or 0 if include_start),
         never stepping THROUGH a position in avoid (avoid positions are reachable but not expanded)."""
+        if getattr(self, 'inlined_ids', None) and not unwind:
+            return self.precise_walk(start, stops=frozenset(avoid), include_start=include_start)
         seen = set()
         dq = deque()
 
@@ -205,6 +207,97 @@ class Body:
             for n in self._pos_succs(p, unwind):
                 push(n)
         return seen
+
+    # ---- variant-sensitive walk (used for bodies that contain inlined code) ----------------------------------
+    _VIDX = {'None': 0, 'Some': 1, 'Ok': 0, 'Err': 1, 'Continue': 0, 'Break': 1}
+
+    def precise_walk(self, start, stops=frozenset(), include_start=False, skip_edges=frozenset()):
+        """positions reached from `start`; positions in `stops` are reached but not expanded; branches that contradict what is known
+        about a local on the path are not taken: the variant of a Result / Option / ControlFlow local assigned by an aggregate
+        (`_0 = Ok(..)` of an inlined callee followed by the caller's `?`), and boolean locals assigned constants."""
+        def step_stmt(st, facts):
+            if st['k'] != 'assign':
+                return facts
+            d = st['dst']
+            l = d['l']
+            rv = st['rv']
+            if d['p']:
+                return frozenset((k, v) for k, v in facts if k != l) if any(k == l for k, v in facts) else facts
+            new = None
+            if rv['k'] == 'agg' and rv.get('var') in self._VIDX and rv.get('adt') in ('Result', 'Option', 'ControlFlow'):
+                new = rv['var']
+            elif rv['k'] == 'use':
+                o = rv['o']
+                if 'l' in o and not o['p']:
+                    new = dict(facts).get(o['l'])
+                elif 'l' not in o and str(o.get('v', o.get('i'))) in ('true', 'false') and self.local_ty(l) == 'bool':
+                    new = '#1' if str(o.get('v', o.get('i'))) == 'true' else '#0'
+            elif rv['k'] == 'discr':
+                pl = rv['pl']
+                if not pl['p']:
+                    v = dict(facts).get(pl['l'])
+                    if v in self._VIDX:
+                        new = '#%d' % self._VIDX[v]
+            elif rv['k'] == 'un' and rv.get('op') == 'Not' and 'l' in rv['o'] and not rv['o']['p']:
+                v = dict(facts).get(rv['o']['l'])
+                if v in ('#0', '#1'):
+                    new = '#1' if v == '#0' else '#0'
+            elif rv['k'] == 'ref' and rv.get('mut') and not rv['pl']['p']:
+                # a mutable borrow of a tracked local: forget it
+                ll = rv['pl']['l']
+                facts = frozenset((k, v) for k, v in facts if k != ll)
+            f2 = frozenset((k, v) for k, v in facts if k != l)
+            if new is not None:
+                f2 = f2 | {(l, new)}
+            return f2
+        seen = set()
+        out = set()
+        dq = deque()
+
+        def push(p, f):
+            if (p, f) not in seen:
+                seen.add((p, f))
+                out.add(p)
+                if p not in stops:
+                    dq.append((p, f))
+        if include_start:
+            push(start, frozenset())
+        else:
+            bi, i = start
+            if i < self.nstmts(bi):
+                push((bi, i + 1), step_stmt(self.blocks[bi]['stmts'][i], frozenset()))
+            else:
+                for n in self._pos_succs(start):
+                    if (bi, n[0]) not in skip_edges:
+                        push(n, frozenset())
+        while dq:
+            p, facts = dq.popleft()
+            bi, i = p
+            if i < self.nstmts(bi):
+                push((bi, i + 1), step_stmt(self.blocks[bi]['stmts'][i], facts))
+                continue
+            t = self.blocks[bi]['term']
+            succs = [x for x in self.succs(bi) if not self.blocks[x]['cleanup'] and (bi, x) not in skip_edges]
+            f2 = facts
+            if t['k'] == 'switch' and 'l' in t['d'] and not t['d']['p']:
+                v = dict(facts).get(t['d']['l'])
+                if v is not None and v.startswith('#'):
+                    tgt = dict(t['ts']).get(v[1:], t['else'])
+                    succs = [x for x in succs if x == tgt]
+            elif t['k'] == 'call':
+                dl = t['dst']['l']
+                f2 = frozenset((k, v) for k, v in facts if k != dl)
+                fn = (t['f'].get('fn') or '') if isinstance(t['f'], dict) else ''
+                if fn.endswith('Try::branch') and t['args'] and 'l' in t['args'][0] and not t['args'][0]['p'] and not t['dst']['p']:
+                    v = dict(facts).get(t['args'][0]['l'])
+                    if v in ('Ok', 'Some'):
+                        f2 = f2 | {(dl, 'Continue')}
+                    elif v in ('Err', 'None'):
+                        f2 = f2 | {(dl, 'Break')}
+                # arguments passed by mutable reference may change: handled through the `ref mut` rule above
+            for x in succs:
+                push((x, 0), f2)
+        return out
 
     def _pos_succs(self, p, unwind=False):
         bi, i = p
@@ -342,6 +435,24 @@ class Program:
         for b in self.bodies.values():
             self.by_short[b.short].append(b)
         self._cg = None
+        # functions the rules do not know (not in tables/known_functions.json) are inlined into their callers: see inline.py
+        import inline
+        self.inlined = inline.apply(self, inline.load_known(os.path.dirname(os.path.dirname(os.path.abspath(__file__)))))
+        for fid in sorted(self.inlined):
+            fb = self.bodies.get(fid)
+            if fb is None or not getattr(fb, 'inlined_everywhere', False):
+                continue
+            home = self.bodies[sorted(self.inlined[fid])[0]]
+            while getattr(home, 'rehomed_to', None):
+                home = self.bodies[home.rehomed_to]
+            del self.bodies[fid]
+            self.by_short[fb.short] = [x for x in self.by_short[fb.short] if x.id != fid]
+            for c in list(self.bodies.values()):
+                if c.kind == 'Closure' and c.id.startswith(fid + '::{closure#'):
+                    self.by_short[c.short] = [x for x in self.by_short[c.short] if x.id != c.id]
+                    c.short = home.short + '::{' + fb.short.rsplit('::', 1)[-1] + '/' + c.id[len(fid) + 3:]
+                    c.enclosing = home.id
+                    self.by_short[c.short].append(c)
 
     def get(self, short):
         """unique body by short name; raises KeyError (fail closed) if missing or ambiguous."""
@@ -355,8 +466,8 @@ class Program:
         return l[0] if len(l) == 1 else None
 
     def closures_of(self, b):
-        pre = b.id + '::{closure#'
-        return [x for x in self.bodies.values() if x.id.startswith(pre)]
+        pres = tuple(i + '::{closure#' for i in [b.id] + list(getattr(b, 'inlined_ids', [])))
+        return [x for x in self.bodies.values() if x.id.startswith(pres)]
 
     def with_closures(self, b):
         return [b] + self.closures_of(b)
